@@ -21,6 +21,9 @@ def run(ctx):
                     "(else merge(a, a) can differ from a as judged by the lattice's own equality: idempotence breaks)", floor=10)
     from lattice_common import predsib_rule
     predsib_rule(ctx, c, R_PS)
+    R_DIR = ctx.rule("C01.dir", "Max keeps the greater and Min the smaller value: the replacement happens on the strict comparison edge in the right direction", floor=2)
+    from lattice_common import ord_direction_rule
+    ord_direction_rule(ctx, c, R_DIR)
     merges = lattice_impls(c, {"lattices::Merge"})
     froms = lattice_impls(c, {"lattices::LatticeFrom"})
     used_rule(ctx, c, R_USED, merges + froms, {"lattices::Merge", "lattices::LatticeFrom", "lattices::IsBot", "lattices::IsTop", "core::cmp::PartialOrd", "core::cmp::PartialEq", "core::cmp::Ord"})
